@@ -611,4 +611,118 @@ theorem externalKey_nil_xonly {H : Hashes} {M : MuSig} {q : Int} (hq : M.point =
   rw [← h, hq]
   exact Taproot.groupLaw.xonly_evenPoint_smul q
 
+
+/-! ## the depth of the generated trees -/
+
+/-- number of branch nodes above the deepest leaf -/
+def depth : Tree → Nat
+  | .leaf _ => 0
+  | .branch l r => 1 + max (depth l) (depth r)
+
+theorem pathHashes_length_le (H : Hashes) : ∀ (t : Tree) (x : Leaf) (p : List Bytes),
+    t.pathHashes H x = some p → p.length ≤ depth t
+  | .leaf _, x, p, h => by simp only [Taproot.Tree.pathHashes, Option.some.injEq] at h; subst h; simp
+  | .branch l r, x, p, h => by
+    simp only [Taproot.Tree.pathHashes] at h
+    split at h
+    · cases hp : l.pathHashes H x with
+      | none => simp [hp] at h
+      | some q =>
+        cases hr : r.hash H with
+        | none => simp [hp, hr] at h
+        | some rh =>
+          simp only [hp, hr, Option.bind_eq_bind, Option.bind_some, Option.pure_def, Option.some.injEq] at h
+          subst h
+          have := pathHashes_length_le H l x q hp
+          simp only [List.length_append, List.length_singleton, depth]; omega
+    · split at h
+      · cases hp : r.pathHashes H x with
+        | none => simp [hp] at h
+        | some q =>
+          cases hl : l.hash H with
+          | none => simp [hp, hl] at h
+          | some lh =>
+            simp only [hp, hl, Option.bind_eq_bind, Option.bind_some, Option.pure_def, Option.some.injEq] at h
+            subst h
+            have := pathHashes_length_le H r x q hp
+            simp only [List.length_append, List.length_singleton, depth]; omega
+      · cases h
+
+/-- the control block of a leaf has at most `depth t` sibling hashes -/
+theorem controlBlock_depth (H : Hashes) {t : Tree} {P : Pt} {x : Leaf} {cb : ControlBlock}
+    (h : t.controlBlock H P (some x) = some cb) : cb.hashes.length ≤ depth t := by
+  obtain ⟨_, _, _, _, _, _, _, _, hpath⟩ := Taproot.controlBlock_some H h
+  exact pathHashes_length_le H t x cb.hashes hpath
+
+/-- TapBranch.combine halves the list: at most `2^d` leaves give depth at most `d` -/
+theorem combineAux_depth : ∀ (d fuel : Nat) (nodes : List Tree) (t : Tree), (∀ n ∈ nodes, depth n = 0) →
+    nodes.length ≤ 2 ^ d → Taproot.combineAux fuel nodes = some t → depth t ≤ d
+  | _, 0, _, _, _, _, h => by simp [Taproot.combineAux] at h
+  | _, _ + 1, [], _, _, _, h => by simp [Taproot.combineAux] at h
+  | d, _ + 1, [x], t, h0, _, h => by
+    simp only [Taproot.combineAux, Option.some.injEq] at h
+    subst h
+    rw [h0 x (by simp)]; omega
+  | 0, _ + 1, _ :: _ :: _, _, _, hl, _ => by simp at hl
+  | d + 1, fuel + 1, a :: b :: rest, t, h0, hl, h => by
+    simp only [Taproot.combineAux, List.length_cons] at h
+    cases hL : Taproot.combineAux fuel ((a :: b :: rest).take ((rest.length + 1 + 1) / 2)) with
+    | none => simp [hL] at h
+    | some l =>
+      cases hR : Taproot.combineAux fuel ((a :: b :: rest).drop ((rest.length + 1 + 1) / 2)) with
+      | none => simp [hL, hR] at h
+      | some r =>
+        simp only [hL, hR, Option.bind_eq_bind, Option.bind_some, Option.pure_def, Option.some.injEq] at h
+        subst h
+        have hpow : 2 ^ (d + 1) = 2 * 2 ^ d := by rw [Nat.pow_succ]; omega
+        have h1 := combineAux_depth d fuel _ l (fun n hn => h0 n (List.mem_of_mem_take hn))
+          (by rw [List.length_take]; simp only [List.length_cons] at hl ⊢; omega) hL
+        have h2 := combineAux_depth d fuel _ r (fun n hn => h0 n (List.mem_of_mem_drop hn))
+          (by rw [List.length_drop]; simp only [List.length_cons] at hl ⊢; omega) hR
+        simp only [depth]; omega
+
+theorem mapM'_leaves {β : Type} (f : β → Option (List Cmd)) : ∀ (l : List β) (r : List Tree),
+    mapM' (fun a => (f a).map leafOfCmds) l = some r → (∀ n ∈ r, depth n = 0) ∧ r.length = l.length
+  | [], r, h => by simp only [mapM', Option.some.injEq] at h; subst h; simp
+  | a :: as, r, h => by
+    simp only [mapM'] at h
+    cases ha : f a with
+    | none => simp [ha] at h
+    | some c =>
+      cases hr : mapM' (fun a => (f a).map leafOfCmds) as with
+      | none => simp [ha, hr] at h
+      | some bs =>
+        simp only [ha, hr, Option.map_some, Option.bind_eq_bind, Option.bind_some, Option.pure_def,
+          Option.some.injEq] at h
+        subst h
+        obtain ⟨i1, i2⟩ := mapM'_leaves f as bs hr
+        refine ⟨?_, by simp [i2]⟩
+        intro n hn
+        rcases List.mem_cons.mp hn with rfl | hn
+        · rfl
+        · exact i1 n hn
+
+/-- **multi_leaf_tree and musig_tree have depth at most `d` when `C(n, k) ≤ 2^d`** -/
+theorem generated_tree_depth {H : Hashes} {T : TapRootMultiSig} {lock seq : Option Nat} {t : Tree} {d : Nat}
+    (h : multiLeafTree T lock seq = some t ∨ musigTree H T lock seq = some t)
+    (hc : Nat.choose T.points.length T.k ≤ 2 ^ d) : depth t ≤ d := by
+  rcases h with h | h
+  · unfold multiLeafTree at h
+    cases hl : multiLeafLeaves T lock seq with
+    | none => simp [hl] at h
+    | some ls =>
+      simp only [hl, Option.bind_eq_bind, Option.bind_some] at h
+      obtain ⟨i1, i2⟩ := mapM'_leaves (fun pk => multiSigCmds pk T.k lock seq) _ ls hl
+      exact combineAux_depth d _ ls t i1 (by rw [i2, combinations_length]; exact hc) h
+  · unfold musigTree at h
+    cases hl : musigLeaves H T lock seq with
+    | none => simp [hl] at h
+    | some ls =>
+      simp only [hl, Option.bind_eq_bind, Option.bind_some] at h
+      have hl' : mapM' (fun pk => ((musigNew H pk lock seq).map (·.cmds)).map leafOfCmds) (combinations T.points T.k)
+          = some ls := by
+        rw [← hl]; unfold musigLeaves; congr 1; funext pk; cases musigNew H pk lock seq <;> rfl
+      obtain ⟨i1, i2⟩ := mapM'_leaves (fun pk => (musigNew H pk lock seq).map (·.cmds)) _ ls hl'
+      exact combineAux_depth d _ ls t i1 (by rw [i2, combinations_length]; exact hc) h
+
 end Buidl.ComposeTap
